@@ -1,3 +1,4 @@
+import copy
 import numpy as np
 from . import Demes, Inference, DemesUtil
 
@@ -92,7 +93,9 @@ def output(Nref=None, deme_mapping=None, generation_time=None):
     """
     Note: If no Nref is specified, then migration rates are scaled to lie within 0 to 1, which is required by the demes specification.
     """
-    global cache
+    # Export from a private copy of the record: the names substituted through deme_mapping (and
+    # the names and end times filled in below) must not leak into later exports of the same model.
+    cache = copy.deepcopy(globals()['cache'])
 
     # Proceed from present to past to get e end_times
     cache[-1].end_time = 0 # Last e ends at present time
